@@ -90,6 +90,88 @@ def case_schema_digests(order_rng):
     return out, mismatches
 
 
+# statements every dialect's long-lived components also see (state kept by a generator between calls shows on these)
+STATEFUL_EXTRA = [
+    "SELECT JSON_VALUE(payload, '$.id') FROM events", "SELECT JSON_QUERY(payload, '$.items') FROM events",
+    """SELECT JSON_EXTRACT(payload, '$."user name"') AS u FROM events""", """SELECT JSON_EXTRACT_SCALAR(payload, '$."a b".c[0]') FROM events""",
+    "SELECT payload -> '$.a' ->> '$.b' FROM events", "SELECT x FROM t WHERE a IN (SELECT b FROM u) AND c LIKE 'x%' ESCAPE '!'",
+    "SELECT CAST(a AS DECIMAL(10, 2)), CAST(b AS TIMESTAMP), a || b FROM t", "WITH RECURSIVE c AS (SELECT 1 AS n UNION ALL SELECT n + 1 FROM c) SELECT * FROM c",
+    "SELECT * FROM t PIVOT(SUM(v) FOR k IN ('a', 'b'))", "SELECT a FROM t QUALIFY ROW_NUMBER() OVER (PARTITION BY b ORDER BY c) = 1",
+    "CREATE TABLE t (a INT PRIMARY KEY, b TEXT NOT NULL DEFAULT 'x')", "SELECT * FROM UNNEST([1, 2]) AS x", "SELECT DATE_ADD(d, INTERVAL 1 DAY) FROM t",
+    "SELECT STRUCT(1 AS a, 'x' AS b)", "SELECT ARRAY_AGG(DISTINCT a ORDER BY b) FROM t", "SELECT a::INT, b::VARCHAR(10) FROM t", "SELECT 'it''s', \"q\" FROM t",
+]
+
+
+def harvested_corpus(dialect):
+    """SQL texts of one dialect: STATEFUL_EXTRA plus the strings harvested from the repository's test module of that dialect"""
+    from ..gen.harvest import harvested
+
+    texts, found = harvested(dialect)
+    return list(STATEFUL_EXTRA) + [t for t in texts if t not in STATEFUL_EXTRA], found
+
+
+def component_reuse(ctx, digests):
+    """Per dialect: one Tokenizer / Parser / Generator kept for the whole corpus, in this process's own order, against a
+    fresh pipeline per statement. Each dialect is handled by two processes (different orders, different hash seeds)."""
+    import sqlglot
+    from sqlglot.dialects.dialect import Dialect
+    from ..common import dialect_names, guarded
+
+    names = [d for d in dialect_names() if d]
+    half = max(ctx.nshards // 2, 1)
+    mine = [d for i, d in enumerate(names) if i % half == ctx.shard % half]
+    cap = 700 if ctx.tier == "quick" else 100000
+    for d in mine:
+        if ctx.expired():
+            break
+        texts, found = harvested_corpus(d)
+        ctx.count("reuse_dialects")
+        if found:
+            ctx.count("reuse_dialects_with_harvested_corpus")
+        rng = random.Random(f"{ctx.seed}:C15:reuse:{d}:{ctx.shard}")
+        extra, rest = texts[:len(STATEFUL_EXTRA)], texts[len(STATEFUL_EXTRA):]
+        rng.shuffle(rest)
+        texts = extra * 2 + rest[:cap]
+        rng.shuffle(texts)
+        D = Dialect.get_or_raise(d)
+        tk, ps, gn = D.tokenizer(), D.parser(), D.generator()
+        for sql in texts:
+            if ctx.expired():
+                break
+
+            def fresh():
+                # same calls as reused(), on components created for this statement alone
+                D2 = Dialect.get_or_raise(d)
+                trees = D2.parser().parse(D2.tokenizer().tokenize(sql), sql)
+                return [D2.generator().generate(t) if t is not None else "" for t in trees]
+
+            def reused():
+                trees = ps.parse(tk.tokenize(sql), sql)
+                return [gn.generate(t) if t is not None else "" for t in trees]
+
+            ntok = len(sql) // 3 + 10
+            st1, a = guarded(lambda: _digest(fresh), ntok)
+            st2, b = guarded(lambda: _digest(reused), ntok)
+            if st1 != "ok" or st2 != "ok":
+                ctx.count("reuse_budget_exceeded")
+                continue
+            ctx.count("evaluations")
+            ctx.count("fresh_vs_reused_compared")
+            ctx.count("reuse_statements")
+            digests.setdefault("reuse-fresh", {})[f"{d}:{h64(sql)}"] = a
+            if a.startswith("EXC") or b.startswith("EXC"):
+                ctx.count("reuse_statement_raised")
+            ctx.nt([d, sql])
+            if a != b:
+                fr, ru = None, None
+                try:
+                    fr, ru = fresh(), reused()
+                except Exception:
+                    pass
+                ctx.violation(f"reused-components-differ-from-fresh:{d}", {"sql": sql, "dialect": d, "fresh": fr, "reused": ru},
+                              {"dialect": d, "sql": sql})
+
+
 def _digest(fn):
     try:
         r = fn()
@@ -175,6 +257,7 @@ def worker(ctx):
                 ctx.nt([it["id"], "optimize"])
         digests[it["id"]] = out
         ctx.count("items_processed")
+    component_reuse(ctx, digests)
     case_d, case_mism = case_schema_digests(random.Random(f"{ctx.seed}:C15:caseorder:{ctx.shard}"))
     digests["case-schema"] = case_d
     ctx.count("case_schema_answers", len(case_d))
@@ -188,23 +271,28 @@ def worker(ctx):
 
 
 def cross_check(agg):
+    """every (item, API) digest must be the same in every process that computed it"""
     out = []
     ex = agg["extras"]
     if len(ex) < 2:
         return out
-    base = ex[0]["digests"]
-    seen = set()
-    for other in ex[1:]:
-        for iid, d in other["digests"].items():
-            b = base.get(iid)
-            if b is None:
-                continue
+    seen = {}      # (item, api) -> (digest, hashseed)
+    flagged = set()
+    for e in ex:
+        for iid, d in e["digests"].items():
             for api, dig in d.items():
-                if b.get(api) != dig and api not in seen:
-                    seen.add(api)
-                    out.append((f"output-differs-across-processes:{api}",
-                                {"item": iid, "api": api, "hashseeds": [ex[0].get("hashseed"), other.get("hashseed")],
-                                 "digests": [b.get(api), dig]}, {"item_id": iid, "api": api}))
+                k = (str(iid), api)
+                if k not in seen:
+                    seen[k] = (dig, e.get("hashseed"))
+                elif seen[k][0] != dig:
+                    sig_api = api.split(":")[0] if str(iid) in ("reuse-fresh", "case-schema") else api
+                    if (str(iid), sig_api) in flagged:
+                        continue
+                    flagged.add((str(iid), sig_api))
+                    name = f"{iid}:{sig_api}" if str(iid) in ("reuse-fresh", "case-schema") else sig_api
+                    out.append((f"output-differs-across-processes:{name}",
+                                {"item": iid, "api": api, "hashseeds": [seen[k][1], e.get("hashseed")], "digests": [seen[k][0], dig]},
+                                {"item_id": iid, "api": api}))
     return out
 
 
